@@ -202,3 +202,7 @@ def _run(chk, replay):
     # factor: a cell is covered when the cells Fac(l+1) / Fac(l) times finer over it are
     from harness import refine
     refine.phase(chk, "integral")
+    # code -> spec at scale: pestle on random nested meshes whose fields are the INDICATORS of the levels; the per-level volumes,
+    # in lattice cells, are judged by CoverTrace.tla against Mesh!IntegralCells
+    from harness import covertrace
+    covertrace.phase(chk, "pestle", quick_n=30, thorough_n=300)
